@@ -127,7 +127,7 @@ fn c13_read_write() {
     std::mem::forget(sq);
 }
 
-//@ prop: C13
+//@ prop: C13 C01
 //@ tier: quick
 //@ what: read_vectored / write_vectored (+ from/at): IORING_OP_READV / WRITEV{fd, addr = the stored iovec array, len = number of buffers, off}; each iovec is the buffer's (spare / data) pointer and length
 //@ bound: 2 buffers of 4 bytes with symbolic fill; fd/kind/offset symbolic
@@ -524,7 +524,7 @@ fn c13_send_recv() {
     std::mem::forget(sq);
 }
 
-//@ prop: C13
+//@ prop: C13 C01
 //@ tier: quick
 //@ what: connect / bind with an IPv4 address: CONNECT{fd, addr = sockaddr inside the state, off = 16}; BIND{fd, addr, addr2 = 16}; send_to: SEND{fd, addr = data, len, addr2 = sockaddr, addr_len = 16, msg_flags}; accept (+flags): ACCEPT{fd, addr = address buffer, off = &length (both inside the state), accept_flags = flags | SOCK_CLOEXEC (regular), IOSQE_ASYNC, file_index = ALLOC iff the listener is direct}; multishot_accept: same with ioprio = ACCEPT_MULTISHOT and no address
 //@ bound: IPv4 address/port symbolic; flags symbolic; fd/kind symbolic
@@ -621,7 +621,7 @@ fn c13_addr_ops() {
     std::mem::forget(sq);
 }
 
-//@ prop: C13
+//@ prop: C13 C01
 //@ tier: quick
 //@ what: wait (+flags): WAITID{fd = id, len = idtype (P_PID/P_PGID/P_ALL), addr2 = siginfo buffer inside the state, file_index = options}; mem::advise: MADVISE{fd = -1, addr, len, advice}; to_direct_descriptor: FILES_UPDATE{fd = -1, off = ALLOC, addr = &descriptor inside the state, len = 1}; to_file_descriptor: FIXED_FD_INSTALL{fd, flags 0}
 //@ bound: all arguments symbolic
